@@ -307,6 +307,12 @@ func init() {
 		E("sync/atomic.Load"+t, ld)
 		E("sync/atomic.Store"+t, st)
 		E("sync/atomic.CompareAndSwap"+t, cas)
+		E("sync/atomic.Swap"+t, func(fr *frame, args []value) value {
+			p := args[0].(*value)
+			old := *p
+			*p = args[1]
+			return old
+		})
 	}
 	E("sync/atomic.AddInt32", func(fr *frame, args []value) value {
 		p := args[0].(*value)
